@@ -735,10 +735,28 @@ func (c *Cond) Broadcast() {
 	c.waiters = nil
 }
 
-type WaitGroup struct{ n int }
+// WaitGroup: under the scheduler a plain counter (Wait is a blocking scheduling point);
+// outside a scheduler run (instrumented code called from an ordinary grid check) it falls
+// through to a real sync.WaitGroup.
+type WaitGroup struct {
+	n    int
+	real sync.WaitGroup
+}
 
-func (w *WaitGroup) Add(d int) { w.n += d }
-func (w *WaitGroup) Done()     { w.n-- }
+func (w *WaitGroup) Add(d int) {
+	if cur == nil {
+		w.real.Add(d)
+		return
+	}
+	w.n += d
+}
+func (w *WaitGroup) Done() {
+	if cur == nil {
+		w.real.Done()
+		return
+	}
+	w.n--
+}
 func (w *WaitGroup) Go(f func()) {
 	w.Add(1)
 	Go(func() { defer w.Done(); f() })
@@ -746,7 +764,8 @@ func (w *WaitGroup) Go(f func()) {
 func (w *WaitGroup) Wait() {
 	s := cur
 	if s == nil {
-		panic("vsync.WaitGroup.Wait outside the scheduler")
+		w.real.Wait()
+		return
 	}
 	if s.abort {
 		runtime.Goexit()
